@@ -208,6 +208,7 @@ pub struct PModel {
     pub has_clustering: bool,
     /// matrix profile the vicinity clustering uses for commutes
     pub clustering_profile: Option<String>,
+    pub clustering_scale: f64,
     pub has_required_breaks: bool,
     pub has_recharges: bool,
     pub fractional: bool,
@@ -459,6 +460,7 @@ impl PModel {
             has_order,
             has_clustering: problem["plan"].get("clustering").is_some(),
             clustering_profile: problem["plan"].get("clustering").and_then(|c| jstr(&c["profile"], "matrix")).map(|s| s.to_string()),
+            clustering_scale: problem["plan"].get("clustering").and_then(|c| c["profile"].get("scale")).and_then(|s| s.as_f64()).unwrap_or(1.0),
             has_required_breaks,
             has_recharges,
             fractional,
@@ -498,6 +500,9 @@ pub struct SAct {
     /// (location the commute to the activity starts at, reported distance), (location it returns to, reported distance)
     pub commute_fwd: Option<(Option<usize>, f64)>,
     pub commute_bck: Option<(Option<usize>, f64)>,
+    /// reported (start, end) of the forward / backward commute
+    pub commute_fwd_time: Option<(i64, i64)>,
+    pub commute_bck_time: Option<(i64, i64)>,
 }
 
 #[derive(Clone, Debug)]
@@ -583,6 +588,8 @@ impl SSolution {
                         has_commute: a.get("commute").is_some(),
                         commute_fwd: a.get("commute").and_then(|c| c.get("forward")).map(|f| (parse_loc(f.get("location")), jf64(f, "distance").unwrap_or(0.0))),
                         commute_bck: a.get("commute").and_then(|c| c.get("backward")).map(|f| (parse_loc(f.get("location")), jf64(f, "distance").unwrap_or(0.0))),
+                        commute_fwd_time: a.get("commute").and_then(|c| c.get("forward")).and_then(|f| f.get("time")).and_then(|t| Some((parse_time(jstr(t, "start")?)?, parse_time(jstr(t, "end")?)?))),
+                        commute_bck_time: a.get("commute").and_then(|c| c.get("backward")).and_then(|f| f.get("time")).and_then(|t| Some((parse_time(jstr(t, "start")?)?, parse_time(jstr(t, "end")?)?))),
                     });
                 }
                 stops.push(SStop {
